@@ -255,6 +255,10 @@ def interpret(handler: ast.FunctionDef, roles: Dict[str, str], branch_params: Li
                 if la in ("SetBreakTarget", "SetContinueTarget"):
                     tgt = ev(e.func.value)
                     v = ev(e.args[0])
+                    if tgt is None and isinstance(e.func.value, ast.Name) and e.func.value.id in env:
+                        # a fix-up record built by hand (`_BreakContinueStatements([], [])`) instead of taken from EndLoop(): a
+                        # loop control without a BeginLoop/EndLoop bracket on this path - the bracket rule reports it
+                        tgt = env[e.func.value.id] = LoopCtl()
                     if not isinstance(tgt, LoopCtl):
                         raise Unmodelled(f"{la} on a value that is not the result of EndLoop(): {unparse(e)}")
                     if la == "SetBreakTarget":
